@@ -9,15 +9,11 @@ package validate
 import (
 	"strings"
 
-	"github.com/go-openapi/analysis"
-	"github.com/go-openapi/loads"
 	"github.com/go-openapi/spec"
 )
 
-func verifNewDocument(sw *spec.Swagger) *loads.Document
-func verifNewAnalyzer(ops map[string]map[string]*spec.Operation) *analysis.Spec
-
 func newSpecHarnessValidator(sw *spec.Swagger, ops map[string]map[string]*spec.Operation, cont, strict bool) *SpecValidator {
+	verifFillPaths(sw, ops)
 	paramSchema := spec.Schema{}
 	root := &spec.Schema{}
 	root.Definitions = spec.Definitions{"parameter": paramSchema} // the re-validation of parameters against the Swagger schema is outside the claim
@@ -33,9 +29,31 @@ func newSpecHarnessValidator(sw *spec.Swagger, ops map[string]map[string]*spec.O
 	return s
 }
 
-func outcomeAndRedeem(r *Result) verifOutcome {
-	o := outcomeOfResult(r)
-	return o
+// verifFillPaths makes the document's paths section consistent with the operations index handed
+// to the analyser stub (natively the real analyser derives the index from the paths section).
+func verifFillPaths(sw *spec.Swagger, ops map[string]map[string]*spec.Operation) {
+	sw.Swagger = "2.0"
+	if len(ops) == 0 {
+		return
+	}
+	if sw.Paths == nil {
+		sw.Paths = &spec.Paths{}
+	}
+	if sw.Paths.Paths == nil {
+		sw.Paths.Paths = map[string]spec.PathItem{}
+	}
+	for method, byPath := range ops {
+		for path, op := range byPath {
+			pi := sw.Paths.Paths[path]
+			switch method {
+			case "GET":
+				pi.Get = op
+			case "POST":
+				pi.Post = op
+			}
+			sw.Paths.Paths[path] = pi
+		}
+	}
 }
 
 // ---------- R4: required properties must be defined ----------
@@ -83,6 +101,10 @@ func HarnessC03RequiredDefs() {
 	}
 	base := run(cont)
 	verifAssert(base.valid == (ok1 && ok2), "required-must-be-defined")
+	if !verifChecking("C10") {
+		verifReach("end")
+		return
+	}
 	// C10: the same document again, maps iterated in another (solver-chosen) order
 	verifPermMaps(true)
 	again := run(cont)
@@ -400,11 +422,13 @@ func HarnessC09Definitions() {
 	verifKF("C09-KF-VISITED-SUFFIX", strings.HasSuffix(defName, propName) || strings.HasSuffix("definitions."+defName, "."+propName))
 	d := &defaultValidator{SpecValidator: s, schemaOptions: s.schemaOptions}
 	gotD := outcomeOfResult(d.Validate())
-	verifAssert(gotD.valid == !bad, "rejected-default-is-an-error-and-only-then")
 	ex := &exampleValidator{SpecValidator: s, schemaOptions: s.schemaOptions}
 	gotE := outcomeOfResult(ex.Validate())
-	verifAssert(gotE.valid, "examples-never-make-errors")
-	verifAssert((len(gotE.warns) > 0) == bad, "rejected-example-is-a-warning-and-only-then")
+	if verifChecking("C09") {
+		verifAssert(gotD.valid == !bad, "rejected-default-is-an-error-and-only-then")
+		verifAssert(gotE.valid, "examples-never-make-errors")
+		verifAssert((len(gotE.warns) > 0) == bad, "rejected-example-is-a-warning-and-only-then")
+	}
 	verifReach("end")
 }
 
@@ -447,11 +471,12 @@ func HarnessC07ParamNames() {
 	ops := map[string]map[string]*spec.Operation{"POST": {"/p": op}}
 	cont := verifBool()
 	s := newSpecHarnessValidator(&spec.Swagger{}, ops, cont, true)
-	verifKF("C07-KF-VISITED-NIL", kfVisitedName(name))
+	verifKF("C09-KF-VISITED-SUFFIX", kfVisitedName(name))
 	d := &defaultValidator{SpecValidator: s, schemaOptions: s.schemaOptions}
 	got := outcomeOfResult(d.Validate())
 	verifObserve("name", name)
-	if op.Responses != nil {
+	verifObserve("valid", got.valid)
+	if op.Responses != nil && verifChecking("C09") {
 		verifAssert(got.valid == !bad, "rejected-parameter-default-is-an-error-and-only-then")
 	}
 	ex := &exampleValidator{SpecValidator: s, schemaOptions: s.schemaOptions}
@@ -462,7 +487,13 @@ func HarnessC07ParamNames() {
 // kfVisitedName: the name itself trips the suffix-overlap heuristic (some dot-separated suffix of it
 // equals the end of what precedes that dot)
 func kfVisitedName(name string) bool {
-	return isVisited(name, map[string]struct{}{})
+	none := map[string]struct{}{}
+	for _, suffix := range []string{"", ".items.default", ".additionalProperties", ".p", ".o", ".o.p", ".allOf[0]"} {
+		if isVisited(name+suffix, none) { // every path the traversal builds below this name
+			return true
+		}
+	}
+	return false
 }
 
 // HarnessC09VisitedKernel: the visited-path heuristic on symbolic names (bytes are solver variables):
